@@ -499,7 +499,7 @@ def run_case(case):
     try:
         if case.get("via_text") and not any(c["fixed"] for c in desc["cells"]):
             text = _U.write_yaml(tree)
-            if ": " in text:
+            if ": " in text or "\n" in text:
                 a0 = _A.Allocation(text)
                 probe("initial_from_text")
             else:
